@@ -126,6 +126,7 @@ def run(R, tier, seed, driver_ok):
             fitted = None          # dict: data, params_at_fit, oracle observables, probes
             handles = []           # (metric_fun, u, v, expected)
             old_M = []             # (copy of a returned Mahalanobis matrix, expected)
+            cal_shared = None
             steps = 0
             while steps < hist_len:
                 steps += 1
@@ -155,6 +156,16 @@ def run(R, tier, seed, driver_ok):
                             kw['bounds'] = np.array([0.0, float(rng.uniform(2, 6))]) if rng.rand() < 0.5 else np.array([0.5, 3.0])
                         if name == 'LSML' and rng.rand() < 0.5:
                             kw['weights'] = rng.uniform(0.5, 2.0, size=len(fa[0]))
+                        if name in zoo.PAIRS and not name.endswith('_Supervised') and rng.rand() < 0.6:
+                            # ONE dict object per history, handed to every fit of that history (a caller re-using its settings)
+                            if cal_shared is None:
+                                strat = ['f_beta', 'max_tpr', 'max_tnr', 'accuracy'][int(rng.randint(4))]
+                                cal_shared = {'strategy': strat}
+                                if strat in ('max_tpr', 'max_tnr'):
+                                    cal_shared['min_rate'] = float(rng.choice([0.3, 0.6, 0.9]))
+                                if strat == 'f_beta':
+                                    cal_shared['beta'] = float(rng.choice([0.5, 1.0, 2.0]))
+                            kw['calibration_params'] = cal_shared
                         p_at_fit = copy.deepcopy(est.get_params())
                         kw_oracle = copy.deepcopy(kw)
                         fa_oracle = copy.deepcopy(fa)
